@@ -435,3 +435,34 @@ def conjuncts_of_term(c, term):
     if isinstance(term, tuple) and term and term[0] == "not" and isinstance(term[1], tuple) and term[1] and term[1][0] == "not":
         return conjuncts_of_term(c, term[1][1])
     return {term}
+
+
+def quantifier_norm(e, env=None, hook=None):
+    """all(P for x in S) / any(..) / not all(..) / not any(..)  ->  ("all"|"any", iterable text, canonical P with the bound
+    variable renamed to `_x`), using  not all(P) == any(not P),  not any(P) == all(not P).  None when `e` is not of that form."""
+    from .symx import subst
+    neg = False
+    while isinstance(e, ast.UnaryOp) and isinstance(e.op, ast.Not):
+        neg = not neg
+        e = e.operand
+    if not (isinstance(e, ast.Call) and dotted(e.func) in ("all", "any") and len(e.args) == 1 and
+            isinstance(e.args[0], (ast.GeneratorExp, ast.ListComp)) and len(e.args[0].generators) == 1 and
+            not e.args[0].generators[0].ifs and isinstance(e.args[0].generators[0].target, ast.Name)):
+        return None
+    g = e.args[0]
+    kind = dotted(e.func)
+    body = subst(g.elt, {g.generators[0].target.id: ast.Name(id="_x", ctx=ast.Load())})
+    c = Canon(env, atom_hook=hook)
+    t = c.term(body)
+    if not (isinstance(t, tuple) and t and t[0] in ("cmp", "and", "or", "not")):
+        zero = ("int", 0)
+        t = ("cmp", "!=", zero, t) if repr(zero) < repr(t) else ("cmp", "!=", t, zero)
+    if neg:
+        kind = "any" if kind == "all" else "all"
+        if t[0] == "cmp" and t[1] in Canon._NEG:
+            t = c._cmp(Canon._NEG[t[1]], t[2], t[3])
+        elif t[0] == "not":
+            t = t[1]
+        else:
+            t = ("not", t)
+    return (kind, unparse(g.generators[0].iter), t)
